@@ -106,6 +106,12 @@ def shapes(tier, seed):
                 if tier == "thorough" or rnd.random() < 0.5:
                     out.append(dict(ONE, cond=[op, l1, l2], form="entity"))
     out.append(dict(ONE, cond=None, form="entity"))
+    # distinct objects that compare EQUAL by value are still distinct solutions
+    EQ = dict(ONE, classes={"X": "EqItem"})
+    for c in (["cmp", "gt", ["a", "x", "a"], ["lit", 0]], ["cmp", "lt", ["a", "x", "a"], ["a", "x", "b"]],
+              ["or", ["cmp", "gt", ["a", "x", "a"], ["lit", 0]], ["cmp", "eq", ["a", "x", "b"], ["a", "x", "c"]]]):
+        out.append(dict(EQ, cond=c, form="entity"))
+        out.append(dict(EQ, cond=c, form="set_of"))
     for l in J:
         out.append(dict(TWO, cond=l))
         out.append(dict(TWO, cond=["not", l]))
